@@ -3,6 +3,8 @@ C12 — every resting price is on the tick grid; rejected creations leave no tra
 -/
 import Bourse.Model.Ops
 import Bourse.Lemmas.Grid
+import Bourse.Lemmas.ViewsCorrect
+import Bourse.Lemmas.RestGrid
 
 namespace Bourse.Props.C12
 open Bourse
@@ -70,5 +72,43 @@ example :
     r1.2 = .ok 0 ∧ r2.2 = .priceError 51 2 ∧ r2.1 = r1.1 ∧
       r1.1.modifyOrder 0 (some 51) none = r1.1 ∧
       ((r1.1.modifyOrder 0 (some 52) none).orders.map (·.order.price)) = [52] := by decide
+
+/-- **Every resting order has a grid price** (stronger than `prices_on_grid_always` for the orders
+that matter to the level data: a market order carries a sentinel price, which need not be a multiple
+of the tick size, but it never rests). -/
+theorem resting_prices_on_grid (t0 tick : Nat) (trading : Bool) (ht : 0 < tick) (ops : List Op)
+    (hv : ∀ op ∈ ops, ValidOp op) (hnf : NoFault (Book.new t0 tick trading) ops) (sd : Side) :
+    ∀ o ∈ Views.resting (((Book.new t0 tick trading).run ops).orders.map (·.order)) sd,
+      o.price % tick = 0 ∧ o.price ≤ MAXP :=
+  resting_on_grid t0 tick trading ht ops hv hnf sd
+
+/-- **The published per-level data accounts for all resting volume within its range**: in every
+reachable state the volumes of the `n` published levels of a side add up to exactly the resting
+volume of that side priced within `n` ticks of the touch — no resting order in range is missed by the
+level queries (they start at the touch and step by exactly one tick; every resting price is on that
+grid) and none is counted twice. -/
+theorem levels_account_for_resting_volume (t0 tick : Nat) (trading : Bool) (ht : 0 < tick) (ops : List Op)
+    (hv : ∀ op ∈ ops, ValidOp op) (hnf : NoFault (Book.new t0 tick trading) ops) (n : Nat)
+    (hn : ∀ i, i < n → i * tick < P32) :
+    let b := (Book.new t0 tick trading).run ops
+    let os := b.orders.map (·.order)
+    ((b.bidLevels n).map (·.1)).sum = Views.volWithin os tick .bid n ∧
+    ((b.askLevels n).map (·.1)).sum = Views.volWithin os tick .ask n := by
+  intro b os
+  have h := inv_reachable t0 tick trading ht ops hv hnf
+  have htick : b.tick = tick := run_tick _ ops
+  obtain ⟨_, _, _, _, _, hb, ha, _⟩ := views_correct h n (by rw [htick]; exact hn)
+  rw [htick] at hb ha
+  rw [hb, ha]
+  exact ⟨Views.bid_levels_account ht (resting_on_grid t0 tick trading ht ops hv hnf .bid) n,
+         Views.ask_levels_account ht (resting_on_grid t0 tick trading ht ops hv hnf .ask) n⟩
+
+/-- Non-vacuity: tick 5, three bid levels in range and one beyond; two published levels hold 7 + 4,
+three hold all 7 + 4 + 2 within 3 ticks; the bid 20 ticks away is out of range of both. -/
+example :
+    let b := (Book.new 0 5 true).run [.cap .bid 7 1 (some 100), .cap .bid 4 1 (some 95), .cap .bid 2 1 (some 90),
+      .cap .bid 9 1 (some 0), .cap .ask 3 2 (some 110)]
+    (b.bidLevels 2).map (·.1) = [7, 4] ∧ Views.volWithin (b.orders.map (·.order)) 5 .bid 2 = 11 ∧
+    Views.volWithin (b.orders.map (·.order)) 5 .bid 3 = 13 ∧ ((b.bidLevels 3).map (·.1)).sum = 13 := by decide
 
 end Bourse.Props.C12
